@@ -1,6 +1,7 @@
 package server
 
 import (
+	"bufio"
 	"github.com/bokysan/socketace/v2/internal/socketace"
 	"github.com/bokysan/socketace/v2/internal/streams"
 	"github.com/bokysan/socketace/v2/internal/util/buffers"
@@ -123,9 +124,26 @@ func (ch *ConnectionHandler) multiplexToUpstream(multiplexChannel net.Conn) erro
 	}()
 
 	log.Tracef("[Server] Handle channel %v", multiplexChannel)
-	if err := mux.Handle(multiplexChannel); err != nil {
+	// Do not speak before the client does: the client registers a newly opened stream only
+	// after it has sent the open frame, so anything we send before its first byte may be
+	// dropped by its multiplexer and the negotiation would hang for ever.
+	peeked := &peekedConnection{Conn: multiplexChannel, reader: bufio.NewReader(multiplexChannel)}
+	if _, err := peeked.reader.Peek(1); err != nil {
+		return errors.Wrapf(err, "Could not handle multiplex channel: %+v", err)
+	}
+	if err := mux.Handle(peeked); err != nil {
 		err = errors.Wrapf(err, "Could not handle multiplex channel: %+v", err)
 		return err
 	}
 	return nil
+}
+
+// peekedConnection is a net.Conn whose reads go through a buffered reader
+type peekedConnection struct {
+	net.Conn
+	reader *bufio.Reader
+}
+
+func (p *peekedConnection) Read(b []byte) (int, error) {
+	return p.reader.Read(b)
 }
